@@ -87,6 +87,9 @@ unsafe impl<T: 'static> LocalRef<T> for RawLocalPooledRef<T> {
         unsafe {
             destroy_local_event(self.event);
         }
+
+        #[cfg(folo_verif)]
+        crate::verif::notify_release(self.event.as_ptr() as usize);
     }
 }
 
